@@ -1446,7 +1446,7 @@ static void mi_segment_force_abandon(mi_segment_t* segment, mi_segments_tld_t* t
   while (slice < end) {
     mi_assert_internal(slice->slice_count > 0);
     mi_assert_internal(slice->slice_offset == 0);
-    if (mi_slice_is_used(slice)) {
+    if (mi_slice_is_used(slice) && mi_page_heap(mi_slice_to_page(slice)) != NULL) {  // skip pages that are already abandoned (by `mi_heap_delete`)
       // ensure used count is up to date and collect potential concurrent frees
       mi_page_t* const page = mi_slice_to_page(slice);
       _mi_page_free_collect(page, false);
